@@ -7,7 +7,7 @@
 #define _GNU_SOURCE
 #include "cglue.h"
 
-enum { D_MKTYPE, D_COOL, D_LOOKUP, D_SWEEP, D_CONC, D_CAST, D_RMTYPE, D_NOPS };
+enum { D_MKTYPE, D_COOL, D_LOOKUP, D_SWEEP, D_CONC, D_CAST, D_RMTYPE, D_RECLASS, D_NOPS };
 static const OpInfo OPS[D_NOPS] = {
   [D_MKTYPE] = { "mktype", 3 },   /* ninst nbuiltin seed */
   [D_COOL]   = { "cool", 1 },     /* type */
@@ -15,6 +15,7 @@ static const OpInfo OPS[D_NOPS] = {
   [D_SWEEP]  = { "sweep", 2 },    /* type order-seed */
   [D_CONC]   = { "conc", 3 },     /* type nthreads order-seed */
   [D_CAST]   = { "cast", 2 },     /* type other-type */
+  [D_RECLASS] = { "reclass", 1 }, /* which: delete a run-time class object and create it again under its name (at another address) */
   [D_RMTYPE] = { "rmtype", 4 },   /* which ninst nbuiltin seed: delete a run-time type and create another one (its address may be reused) */
 };
 
@@ -99,11 +100,19 @@ static var declared_instance(var t, int ck, var cls) {
   for (int i = 0; i < DECL[s]->n; i++) if (DECL[s]->ck[i] == ck) return DECL[s]->inst[i];
   return NULL;
 }
+/* a class is known by its name: another class object carrying the name of a built-in class must be answered like that class */
+static var TWCLS[NCLS];
+static var twin_class(int ck) {
+  if (!TWCLS[ck]) { TWCLS[ck] = new_raw(Type, $S((char*)CI[ck].name), $I((int64_t)size(*CI[ck].cls)));
+                    ((struct Type*)TWCLS[ck])[CELLO_CACHE_NUM / 3].inst = (var)CI[ck].name; stat_add("disp.twin_classes", 1); }
+  return TWCLS[ck];
+}
 static void check_triple(var t, int ck, int member, int tid) {
   var cls = cls_at(ck);
   var want = declared_instance(t, ck, cls);
+  if (tid == 0 && ck < NCLS && (member & 8)) { cls = twin_class(ck); stat_add("disp.lookups_through_twin_class", 1); }
   int nmem = cls_nmem(ck);
-  int m = ((member % nmem) + nmem) % nmem;
+  int m = (((member & 7) % nmem) + nmem) % nmem;
   int has_member = want && ((var*)want)[m] != NULL;
   size_t off = (size_t)m * sizeof(var);
   const char* tn = raw_name_of(t); const char* cn = raw_name_of(cls);
@@ -169,6 +178,7 @@ static var conc_entry(var args) {
 }
 
 static int g_replace_slot = -1;
+static var g_inplace_type;
 static void mktype(int ninst, int nbuiltin, uint64_t seed) {
   if (g_nrt >= MAXRT && g_replace_slot < 0) return;
   Rng r; rng_seed(&r, seed, 5, STREAM_AUX);
@@ -226,7 +236,10 @@ static void mktype(int ninst, int nbuiltin, uint64_t seed) {
     push(args, inst);
     if (DECL[slot]->n < MAXDECL) { DECL[slot]->ck[DECL[slot]->n] = pick[i]; DECL[slot]->inst[DECL[slot]->n] = inst; DECL[slot]->n++; }
   }
-  var t = new_raw_with(Type, args);
+  /* a fresh type object, or the constructor run again on an existing one (construct): everything the old definition left
+   * behind - cache slots, class memos - must be gone */
+  var t = g_inplace_type ? construct_with(g_inplace_type, args) : new_raw_with(Type, args);
+  g_inplace_type = NULL;
   /* the name string must outlive the type (Type_New keeps the pointer) */
   ((struct Type*)t)[CELLO_CACHE_NUM / 3].inst = g_names[slot];
   RT[slot] = t;
@@ -245,7 +258,17 @@ static void dispatch_execute(const Plan* p) {
     switch (o->code) {
       case D_MKTYPE: mktype((int)o->a[0], (int)o->a[1], (uint64_t)o->a[2]); break;
       case D_COOL: cool(type_at(o->a[0])); break;
-      case D_LOOKUP: { int n = ncls_total(); check_triple(type_at(o->a[0]), (int)(((o->a[1] % n) + n) % n), (int)(o->a[2] & 7), 0); break; }
+      case D_LOOKUP: { int n = ncls_total(); check_triple(type_at(o->a[0]), (int)(((o->a[1] % n) + n) % n), (int)(o->a[2] & 15), 0); break; }
+      case D_RECLASS: {
+        if (g_nrc == 0) break;
+        int k = (int)(((o->a[0] % g_nrc) + g_nrc) % g_nrc);
+        var old = RC[k];
+        del_raw(old);
+        RC[k] = new_raw(Type, $S(g_names[MAXRT + k]), $I(16));
+        if (RC[k] isnt old) stat_add("disp.class_recreated_elsewhere", 1);
+        /* (declarations are by class name: the records of the types that declared it stay as they are) */
+        stat_add("disp.classes_recreated", 1);
+        break; }
       case D_SWEEP: sweep(type_at(o->a[0]), (uint64_t)o->a[1], 0); break;
       case D_CAST: {
         var t = type_at(o->a[0]), u = type_at(o->a[1]);
@@ -273,7 +296,8 @@ static void dispatch_execute(const Plan* p) {
         int k = (int)(((o->a[0] % g_nrt) + g_nrt) % g_nrt);
         var old = RT[k];
         sweep(old, (uint64_t)o->a[3], 0);            /* the dying type's lookups are the most recent ones */
-        del_raw(old);
+        if ((o->a[0] / 8) % 2 == 1) { g_inplace_type = old; stat_add("disp.types_redefined_in_place", 1); }
+        else del_raw(old);
         g_replace_slot = k;
         mktype((int)o->a[1], (int)o->a[2], (uint64_t)o->a[3] + 1);
         if (RT[k] is old) stat_add("disp.type_address_reused", 1);
@@ -310,11 +334,12 @@ static void dispatch_generate(Plan* p, Rng* r) {
   for (int i = 0; i < nops; i++) {
     uint32_t d = rng_below(r, 100);
     int64_t t = rng_chance(r, 1, 3) ? NBUILTIN_T + (int64_t)rng_below(r, (uint32_t)nrt) : (int64_t)rng_below(r, NBUILTIN_T);
-    if (d < 25) { int64_t l3 = rng_below(r, 8), l2 = rng_below(r, 300); plan_add(p, D_LOOKUP, 0, 0, t, l2, l3, 0, 0, 0); }
+    if (d < 25) { int64_t l3 = rng_below(r, 16), l2 = rng_below(r, 300); plan_add(p, D_LOOKUP, 0, 0, t, l2, l3, 0, 0, 0); }
     else if (d < 45) plan_add(p, D_SWEEP, 0, 0, t, (int64_t)rng_below(r, 1000000), 0, 0, 0, 0);
     else if (d < 60) plan_add(p, D_COOL, 0, 0, t, 0, 0, 0, 0, 0);
     else if (d < 68) plan_add(p, D_CAST, 0, 0, t, rng_below(r, NBUILTIN_T + 3), 0, 0, 0, 0);
-    else if (d < 76) { int64_t q4 = (int64_t)rng_below(r, 1000000), q3 = rng_below(r, NCLS + 1), q2 = sizes[rng_below(r, 14)], q1 = rng_below(r, 8); plan_add(p, D_RMTYPE, 0, 0, q1, q2, q3, q4, 0, 0); }
+    else if (d < 72) { int64_t q4 = (int64_t)rng_below(r, 1000000), q3 = rng_below(r, NCLS + 1), q2 = sizes[rng_below(r, 14)], q1 = rng_below(r, 16); plan_add(p, D_RMTYPE, 0, 0, q1, q2, q3, q4, 0, 0); }
+    else if (d < 76) plan_add(p, D_RECLASS, 0, 0, rng_below(r, 300), 0, 0, 0, 0, 0);
     else { int64_t c3 = (int64_t)rng_below(r, 1000000), c2 = rng_below(r, 15); plan_add(p, D_CONC, 0, 0, t, c2, c3, 0, 0, 0); }
   }
 }
